@@ -100,6 +100,7 @@ FUNCS = [
     ("rtrlib/rtr/packets.c", "rtr_send_serial_query", {"xworld": "struct rtr_socket"}),
     ("rtrlib/rtr/packets.c", "rtr_send_reset_query", {"xworld": "struct rtr_socket"}),
     ("rtrlib/rtr/packets.c", "rtr_pdu_convert_footer_byte_order", {"mem": ["pdu"], "writes": True, "memlocals": ["addr6"]}),
+    ("rtrlib/rtr/rtr.c", "rtr_init", {"ident": ["tr", "pfx_table", "spki_table", "fp", "fp_param_config", "fp_param_group"]}),
 ]
 
 LISTED = set(f[1] for f in FUNCS)
@@ -712,8 +713,14 @@ class Fn:
         for p in n.get("inner", []):
             if p.get("kind") != "ParmVarDecl":
                 continue
-            ty = parse_type(p["type"])
             name = p.get("name")
+            if name in self.opts.get("ident", []):
+                # a pointer that is only stored or tested against NULL: its identity (a 64-bit number) is all the function sees
+                ty = Ty("int", 64, False)
+                self.params.append((name, ty, "scalar"))
+                self.vars[name] = {"ty": ty, "mode": "scalar", "ident": True}
+                continue
+            ty = parse_type(p["type"])
             if ty.kind == "ptr":
                 if name in self.opts.get("as", {}):
                     ty = Ty("ptr", elem=Ty("struct", name=self.opts["as"][name]))
@@ -1956,6 +1963,24 @@ class Fn:
             cond, th = inner[0], inner[1]
             el = inner[2] if len(inner) > 2 else None
             self.clear_hoists(cond)
+            # `if (A || B) S else T` with a call on the right of the operator: the call must not be hoisted in front of A.  The
+            # statement is the same as `if (A) S else if (B) S else T` (and `&&` as `if (A) { if (B) S else T } else T`), where every
+            # call is in a strict position again (the continuation is duplicated, as for every `if`).
+            cc = cond
+            while cc.get("kind") in ("ParenExpr",) or (cc.get("kind") == "ImplicitCastExpr" and cc.get("castKind") in ("IntegralToBoolean", "NoOp", "LValueToRValue")):
+                cc = cc["inner"][0]
+            if cc.get("kind") == "BinaryOperator" and cc.get("opcode") in ("||", "&&") and self.find_calls(cc["inner"][1]) and any(
+                    not (self.callee_name(c) in IGNORED_CALLS or self.callee_name(c) in BSWAP) for c in self.find_calls(cc["inner"][1])):
+                a, b = cc["inner"]
+                th2 = th
+                el2 = el if el is not None else {"kind": "NullStmt", "inner": []}
+                if cc["opcode"] == "||":
+                    inner_if = {"kind": "IfStmt", "inner": [b, th2, el2], "_line": s.get("_line")}
+                    outer = {"kind": "IfStmt", "inner": [a, th2, inner_if], "_line": s.get("_line")}
+                else:
+                    inner_if = {"kind": "IfStmt", "inner": [b, th2, el2], "_line": s.get("_line")}
+                    outer = {"kind": "IfStmt", "inner": [a, inner_if, el2], "_line": s.get("_line")}
+                return self.stmt(outer, env, ctx)
 
             def fin(env2):
                 c = self.as_bool(self.expr(cond, env2, "bool"))
@@ -2282,7 +2307,25 @@ class Fn:
         compound = s.get("kind") == "CompoundAssignOperator"
         if self.uses_mem and self.mem_addr(lhs, env) is not None:
             return self.store(s, env, nxt)
-        p = self.lvalue_path(lhs, env)
+        try:
+            p = self.lvalue_path(lhs, env)
+        except Untranslatable as ex:
+            # a store to a pointer member that the structure does not model (pointer members are left out: no translated function can
+            # read them): the store has no effect on the modelled fields.  Only plain `x->member = <pointer>`.
+            t = lhs
+            while t.get("kind") == "ParenExpr":
+                t = t["inner"][0]
+            lq = t.get("type", {}).get("qualType", "") + " " + t.get("type", {}).get("desugaredQualType", "")
+            rr = rhs
+            while rr.get("kind") in ("ParenExpr", "ImplicitCastExpr", "CStyleCastExpr"):
+                rr = rr["inner"][-1]
+            if rr.get("kind") == "DeclRefExpr" and self.vars.get(rr.get("referencedDecl", {}).get("name"), {}).get("ident"):
+                lq += " *"
+            if ("has no supported type" in str(ex) and not compound and t.get("kind") == "MemberExpr" and ("*" in lq)
+                    and not self.find_calls(rhs)):
+                self.root.dropped_stores = getattr(self.root, "dropped_stores", []) + [t.get("name")]
+                return nxt(env)
+            raise
         if p["const"]:
             bad("assignment through a pointer to const", s)
 
